@@ -10,6 +10,7 @@ the real objects.
 """
 import binascii
 import json
+import numbers
 import os
 import sys
 
@@ -24,6 +25,10 @@ def hexs(s):
 
 
 def keyline(k):
+    import numbers
+
+    if isinstance(k, numbers.Integral) and not isinstance(k, (bool, int)):
+        k = int(k)  # numpy integers hash and compare like Python ints: same dictionary key
     if isinstance(k, bool) or not isinstance(k, (int, str)):
         return None
     if isinstance(k, int):
@@ -33,8 +38,10 @@ def keyline(k):
 
 def carries(sg, ident, aliases):
     """Independent statement of 'the setting carries this identifier' on the real object."""
-    if isinstance(ident, int) and not isinstance(ident, bool):
-        return ident == sg.number
+    import numbers
+
+    if isinstance(ident, numbers.Integral) and not isinstance(ident, bool):
+        return int(ident) == sg.number
     if not isinstance(ident, str):
         return False
     bare = ident.strip()
@@ -94,6 +101,9 @@ def run(ck):
     sgl = list(S.SpaceGroupList)
     pos_of = {id(g): i for i, g in enumerate(sgl)}
     translated = {s["pos"] for s in rep["settings"]}
+    # the tables must not be changed by any lookup: remember the identity of every operation list and object
+    snap = [(id(g.symop_list), [id(o) for o in g.symop_list], [str(o) for o in g.symop_list],
+             (g.number, g.num_sym_equiv, g.num_primitive_sym_equiv, g.short_name, g.pdb_name, g.crystal_system, g.point_group_name)) for g in sgl]
     # ---- 1. the table itself: model vs implementation --------------------------------------
     S._sg_lookup_table.clear()
     S._buildSGLookupTable()
@@ -111,6 +121,11 @@ def run(ck):
         ids.add(" %d " % g.number)
         ids.add("%d.0" % g.number)
         ids.add(g.number + 100000)
+        if i % 7 == 0:
+            import numpy
+
+            ids.add(numpy.int64(g.number))
+            ids.add(numpy.int32(g.number))
         ids.add(g.short_name + "x")
         ids.add(g.pdb_name + " 1")
         for ident in sorted(ids, key=lambda v: (str(type(v)), str(v))):
@@ -161,6 +176,11 @@ def run(ck):
         extra = sgl[(i * 7 + 3) % len(sgl)].symop_list[-1]
         if all(str(extra) != str(o) for o in ops):
             oplists.append(("superlist-foreign", i, ops + [extra]))
+            oplists.append(("superlist-foreign-pair", i, ops + [extra, extra]))
+        if len(ops) <= 16:
+            oplists.append(("superlist-twice-first", i, ops + [ops[0], ops[0]]))
+            oplists.append(("repeated-3x", i, ops * 3))
+            oplists.append(("repeated-2x", i, ops * 2))
     op_lines = []
     for kind, i, ops in oplists:
         if ops is None:
@@ -222,7 +242,7 @@ def run(ck):
         # oracle
         if res is not None and (res < 0 or not carries(sgl[res], v, aliases)):
             ck.fail(key, "GetSpaceGroup(%r) returned #%s (%s) which does not carry that identifier" % (v, sgl[res].number, sgl[res].short_name), repl)
-        if isinstance(v, int) and not isinstance(v, bool) and res is not None and sgl[res].number != v:
+        if isinstance(v, numbers.Integral) and not isinstance(v, bool) and res is not None and sgl[res].number != int(v):
             ck.fail(key, "GetSpaceGroup(%r) returned the setting registered under %s" % (v, sgl[res].number), repl)
         if res is None and documented(v, sgl, aliases):
             ck.fail(key, "GetSpaceGroup(%r) rejects an identifier the function is documented to answer to" % (v,), repl)
@@ -308,6 +328,13 @@ def run(ck):
             if not agree:
                 ck.fail("model-find:%s:%s" % (kind, sgl[i].number), "model findSG = %s, FindSpaceGroup gives %s (%s list of #%s)" % (o, exp, kind, sgl[i].number),
                         dict(repl, model=o, impl=exp, theorem="correspondence stream lookup.find"), no_failing_input=True)
+    for g, (lid, oids, ostrs, meta) in zip(sgl, snap):
+        now = (g.number, g.num_sym_equiv, g.num_primitive_sym_equiv, g.short_name, g.pdb_name, g.crystal_system, g.point_group_name)
+        if id(g.symop_list) != lid or [id(o) for o in g.symop_list] != oids or [str(o) for o in g.symop_list] != ostrs or now != meta:
+            ck.fail("table-modified:%s" % meta[0], "the tabulated setting #%s was modified by the lookups of this run (operation list or metadata of the shared SpaceGroup object changed)" % meta[0],
+                    {"kind": "history", "setting": meta[0], "history": "GetSpaceGroup / FindSpaceGroup(same order, shuffled, edited copies) calls of the C11 streams",
+                     "stream": "table-modified"})
+            break
     ck.coverage["distinct_nontrivial"] = len([v for v in idents if not isinstance(v, int)]) + nfind
     ck.coverage["rule"] = ("%d identifiers (every number, number string, short/full symbol of all %d settings with case/blank variants, near misses, aliases, junk) and "
                            "%d operation lists (same / shuffled / sublist / superlist with duplicate / superlist with foreign op / re-parsed from x,y,z text); the whole "
@@ -357,8 +384,10 @@ def mutate_after_lookup(ck, g, tabulated, FindSpaceGroup, SymOp, edit=None):
 def documented(v, sgl, aliases):
     """Identifiers the function is documented to answer to: numbers, exact names, case variants, blanks
     inside short names, outer blanks, aliases."""
-    if isinstance(v, int) and not isinstance(v, bool):
-        return any(g.number == v for g in sgl)
+    import numbers
+
+    if isinstance(v, numbers.Integral) and not isinstance(v, bool):
+        return any(g.number == int(v) for g in sgl)
     if not isinstance(v, str):
         return False
     bare = v.strip(" ")
@@ -399,12 +428,14 @@ def xyz_text(o, style=0):
         if style == 3 and t != 0:
             t = t + (i % 2)
         if t == 0:
-            rows.append(body or "0")
+            rows.append((body.upper() if style == 3 else body) or "0")
         elif style == 2:
             cst = "%d/%d" % (t.numerator, t.denominator)
             rows.append(cst + (("+" + body) if body and not body.startswith("-") else body))
         elif style == 3 and t.denominator in (1, 2, 4, 8):
             rows.append((body.upper() + "%+g" % float(t)) if body else "%g" % float(t))
+        elif style == 3:
+            rows.append(body.upper() + "%+d/%d" % (t.numerator, t.denominator))
         else:
             rows.append(body + "%+d/%d" % (t.numerator, t.denominator))
     return (" , " if style == 3 else ",").join(rows)
@@ -444,6 +475,18 @@ def replay(path):
             if FindSpaceGroup(ops, shuffle=True) is not sgl[exp]:
                 return 1
         return 0
+    if r.get("stream") == "table-modified":
+        g = [x for x in sgl if x.number == r["setting"]][0]
+        before = (id(g.symop_list), [id(o) for o in g.symop_list])
+        ops = list(g.symop_list)
+        FindSpaceGroup(ops)
+        FindSpaceGroup(list(reversed(ops)))
+        ops2 = [SymOp(numpy.array(o.R, dtype=float), numpy.array(o.t, dtype=float)) for o in ops]
+        FindSpaceGroup(ops2)
+        ops2.reverse()
+        after = (id(g.symop_list), [id(o) for o in g.symop_list])
+        print("tabulated operation list untouched:", before == after)
+        return 0 if before == after else 1
     if r.get("stream") == "find-text":
         want = sorted(str(o) for o in sgl[r["setting_pos"]].symop_list)
         try:
